@@ -909,3 +909,16 @@ m('c16-round-ascii-removed-count', ['C16'], 'round_ascii_digits:positions[remove
 m('c16-round-ascii-digit-as-ascii', ['C16'], 'round_ascii_digits:positions[insignificant-digit]', [
   ('src/impl_fmt.rs', "        rounder, insig_digit - b'0', || trailing_digits.iter().all(|&d| d == b'0')", "        rounder, insig_digit, || trailing_digits.iter().all(|&d| d == b'0')")],
   'ASCII code handed to the rounding rule instead of the digit value')
+# ---- C16 fixed-point bookkeeping
+m('c16-fixed-point-uses-stale-scale', ['C16'], 'format_ascii_digits_with_integer_and_fraction:scale-bookkeeping', [
+  ('src/impl_fmt.rs', "        let integer_digit_count = (digits_ascii_be.len() as u64 - digit_scale)", "        let integer_digit_count = (digits_ascii_be.len() as u64 - scale)")],
+  'the point is placed with the scale from before the rounding')
+m('c16-fixed-point-rounding-index', ['C16'], 'format_ascii_digits_with_integer_and_fraction:scale-bookkeeping', [
+  ('src/impl_fmt.rs', "        let rounding_idx = NonZeroUsize::new(digits_ascii_be.len() - digit_count_to_remove)", "        let rounding_idx = NonZeroUsize::new(digits_ascii_be.len() - digit_count_to_remove + 1)")],
+  'one digit too many kept before rounding')
+m('c16-fixed-point-assumes-no-carry', ['C16'], 'format_ascii_digits_with_integer_and_fraction:scale-bookkeeping', [
+  ('src/impl_fmt.rs', "                digit_scale -= scale_diff as u64;\n            }\n            Some(zeros_to_add) => {", "                digit_scale = target_scale;\n            }\n            Some(zeros_to_add) => {")],
+  'scale after rounding assumed to be the target: wrong when a carry removes trailing nines (1.999 at {:.2})')
+m('c16-fixed-point-one-zero-too-many', ['C16'], 'format_ascii_digits_with_integer_and_fraction:scale-bookkeeping', [
+  ('src/impl_fmt.rs', "        let trailing_zero_count = (target_scale - digit_scale)\n", "        let trailing_zero_count = (target_scale - digit_scale + 1)\n")],
+  'one padding zero too many')
